@@ -12,8 +12,10 @@ ID = "C01"
 P = "Webauthn.Props.C01."
 THEOREMS = [P + "sound", P + "reject_any_deviation",
             "Webauthn.verifyAuth_ok_iff", "Webauthn.cose_sigPlan_sound", "Webauthn.sigDispatchTable_ok",
-            "Webauthn.parseFlags_eq_flagRow", "Webauthn.parseAuthData_header", "Webauthn.clientDataOfJVal_ok"]
-LEAN_TARGETS = ["Props.C01"]
+            "Webauthn.parseFlags_eq_flagRow", "Webauthn.parseAuthData_header", "Webauthn.clientDataOfJVal_ok"] + \
+           ["Webauthn.Props.Examples.auth_accepts", "Webauthn.Props.Examples.auth_rejects"]
+AUDIT_IMPORTS = ["Props.Examples"]
+LEAN_TARGETS = ["Props.Examples", "Props.C01"]
 SPEC_FILES = ["Spec/Core.lean", "Proofs/VerifyAuth.lean"]
 ASSUMPTIONS = [
     "signature validity, hashing and JSON decoding are the external libraries' verdicts (oracles); theorems hold for every oracle behaviour",
